@@ -272,6 +272,39 @@ func syntheticRequests(reqdir string) error {
 				{Name: str("note"), JsonName: str("note"), Number: i32(6), Label: lbl(opt), Type: typ(descriptorpb.FieldDescriptorProto_TYPE_STRING), OneofIndex: i32(0)},
 			},
 			OneofDecl: []*descriptorpb.OneofDescriptorProto{{Name: str("contact")}},
+		}, {
+			// the other package is referenced by nothing but the VALUE type of a map: an enum ...
+			Name: str("Ledger"),
+			Field: []*descriptorpb.FieldDescriptorProto{
+				{Name: str("levels"), JsonName: str("levels"), Number: i32(1), Label: lbl(rep), Type: typ(descriptorpb.FieldDescriptorProto_TYPE_MESSAGE), TypeName: str(".verif.app.Ledger.LevelsEntry")},
+				{Name: str("entries"), JsonName: str("entries"), Number: i32(2), Label: lbl(opt), Type: typ(descriptorpb.FieldDescriptorProto_TYPE_INT32)},
+			},
+			NestedType: []*descriptorpb.DescriptorProto{{
+				Name: str("LevelsEntry"), Options: &descriptorpb.MessageOptions{MapEntry: proto.Bool(true)},
+				Field: []*descriptorpb.FieldDescriptorProto{
+					{Name: str("key"), JsonName: str("key"), Number: i32(1), Label: lbl(opt), Type: typ(descriptorpb.FieldDescriptorProto_TYPE_STRING)},
+					{Name: str("value"), JsonName: str("value"), Number: i32(2), Label: lbl(opt), Type: typ(descriptorpb.FieldDescriptorProto_TYPE_ENUM), TypeName: str(".verif.common.v1.Level")},
+				},
+			}},
+		}, {
+			// ... and a message, here one level further down
+			Name: str("Routes"),
+			Field: []*descriptorpb.FieldDescriptorProto{
+				{Name: str("hops"), JsonName: str("hops"), Number: i32(1), Label: lbl(rep), Type: typ(descriptorpb.FieldDescriptorProto_TYPE_MESSAGE), TypeName: str(".verif.app.Routes.Hop")},
+			},
+			NestedType: []*descriptorpb.DescriptorProto{{
+				Name: str("Hop"),
+				Field: []*descriptorpb.FieldDescriptorProto{
+					{Name: str("by_id"), JsonName: str("byId"), Number: i32(1), Label: lbl(rep), Type: typ(descriptorpb.FieldDescriptorProto_TYPE_MESSAGE), TypeName: str(".verif.app.Routes.Hop.ByIdEntry")},
+				},
+				NestedType: []*descriptorpb.DescriptorProto{{
+					Name: str("ByIdEntry"), Options: &descriptorpb.MessageOptions{MapEntry: proto.Bool(true)},
+					Field: []*descriptorpb.FieldDescriptorProto{
+						{Name: str("key"), JsonName: str("key"), Number: i32(1), Label: lbl(opt), Type: typ(descriptorpb.FieldDescriptorProto_TYPE_INT32)},
+						{Name: str("value"), JsonName: str("value"), Number: i32(2), Label: lbl(opt), Type: typ(descriptorpb.FieldDescriptorProto_TYPE_MESSAGE), TypeName: str(".verif.common.v1.Shared")},
+					},
+				}},
+			}},
 		}},
 	}
 	ver := &pluginpb.Version{Major: proto.Int32(3), Minor: proto.Int32(21), Patch: proto.Int32(12)}
